@@ -11,6 +11,8 @@ func runExtraProfile(name, root string, w *bufio.Writer, seed uint64, n, ops int
 		genFmt(w, run, seed, n)
 	case "damage":
 		genDamage(w, run, seed, n, ops > 1)
+	case "lock":
+		genLock(w, root, seed, n, ops)
 	default:
 		return false
 	}
